@@ -53,20 +53,23 @@ func VH_C09_has_check() {
 	vxReach("has_check.end")
 }
 
-// GivesCheck(m) == the opponent is in check after m; IsLegalMove / DoMove+WasLegalMove == rules.
-// Case split: origin, destination, move type concrete.
-func VN_C09_move_predicates() int { return 4 * 4096 }
-func VQ_C09_move_predicates() int { return 96 }
-func VH_C09_move_predicates(k int) {
-	vxStub(vxGetAttacksBb, VxGeoAttacks)
+// vxIsAttackedSummary is IsAttacked's verified specification (VH_C09_is_attacked shows
+// IsAttacked == this for every square, colour and board whose bitboards agree with the board; C04
+// shows DoMove keeps them in agreement). Used as a summary inside the legality harness.
+func vxIsAttackedSummary(p *Position, sq Square, by Color) bool {
+	s := p.VxState()
+	return s.VxSpecAttacked(sq, by) || s.vxEpAttacked(sq, by)
+}
+
+// IsLegalMove / DoMove+WasLegalMove == rules. Case split: origin, destination, move type concrete.
+func VN_C09_move_legality() int { return 4 * 4096 }
+func VQ_C09_move_legality() int { return 128 }
+func VH_C09_move_legality(k int) {
+	vxStub("(*github.com/frankkopp/FrankyGo/internal/position.Position).IsAttacked", vxIsAttackedSummary)
 	m := vxMoveSqRaw(k)
 	p, s := VxSymPosL("", true)
 	vxAssume(s.VxSpecPseudoLegal(m))
-	n := s.VxSpecDoMove(m)
 	legal := s.VxSpecLegal(m)
-	if legal { // for illegal moves (king stepping next to the enemy king) "check" is not defined by the rules
-		vxAssert(p.GivesCheck(m) == n.VxInCheck(n.Stm), "GivesCheck==opponent-in-check-after-move")
-	}
 	vxAssert(p.IsCapturingMove(m) == (s.Board[m.To()] != PieceNone || m.MoveType() == EnPassant), "IsCapturingMove")
 	before := *p
 	vxAssert(p.IsLegalMove(m) == legal, "IsLegalMove==rules")
@@ -74,5 +77,19 @@ func VH_C09_move_predicates(k int) {
 		p.nextPlayer == before.nextPlayer, "IsLegalMove-leaves-position")
 	p.DoMove(m)
 	vxAssert(p.WasLegalMove() == legal, "WasLegalMove==rules")
-	vxReach("move_predicates.end")
+	vxReach("move_legality.end")
+}
+
+// GivesCheck(m) == the opponent is in check after m (legal moves: for an illegal king step next to
+// the enemy king "check" is not defined by the rules).
+func VN_C09_gives_check() int { return 4 * 4096 }
+func VQ_C09_gives_check() int { return 32 }
+func VH_C09_gives_check(k int) {
+	vxStub(vxGetAttacksBb, VxGeoAttacks)
+	m := vxMoveSqRaw(k)
+	p, s := VxSymPosL("", true)
+	vxAssume(s.VxSpecLegal(m))
+	n := s.VxSpecDoMove(m)
+	vxAssert(p.GivesCheck(m) == n.VxInCheck(n.Stm), "GivesCheck==opponent-in-check-after-move")
+	vxReach("gives_check.end")
 }
